@@ -68,10 +68,15 @@ Proof. exact refuted_too_short. Qed.
 Print Assumptions C06_refuted_too_short.
 
 (* output stage: dict form resolves every key to the denotation of its path *)
-Theorem C06_positions_dict : forall t reqs, wfb t = true -> reqs_resolvable t reqs = true ->
+Theorem C06_positions_dict : forall t reqs, wfb t = true -> reqs_resolvable t reqs = true -> all_found t reqs = true ->
   positions_dict t reqs = Ok (flat_map (entries_of t) reqs).
 Proof. exact positions_dict_spec. Qed.
 Print Assumptions C06_positions_dict.
+(* ... and refuses a key whose path denotes nothing (fix D48) *)
+Theorem C06_missing_output_refused : forall t key pat o x rest, wfb t = true -> resolvable t pat = true ->
+  path_denotation t (Some (o, x)) pat = [] -> positions_dict t ((key, (pat, (o, x))) :: rest) = Err PyRatesException.
+Proof. exact positions_dict_missing. Qed.
+Print Assumptions C06_missing_output_refused.
 Theorem C06_multi_label : forall (key : string) n o x,
   key :: firstn (List.length (var_key n o x) - 2) (var_key n o x) ++ [last2 (var_key n o x)] = key :: n ++ [opvar o x].
 Proof. exact multi_label. Qed.
@@ -95,14 +100,14 @@ Theorem C06_list_form_old_refuted :
   pos L3 ["B"; "op"; "x"] = Some 1.
 Proof. exact list_old_refuted. Qed.
 Print Assumptions C06_list_form_old_refuted.
-Theorem C06_plain_key_split_refuted :
+(* D43 (repaired by a fix: commit): a plain key next to a wildcard key keeps its label *)
+Theorem C06_plain_key_regression :
+  map fst (match run_columns flat3 L3 DictForm [("ab", (["B"], ox)); ("a", (["all"], ox))] with Ok l => l | Err _ => [] end) =
+  map fst (spec_columns flat3 DictForm [("ab", (["B"], ox)); ("a", (["all"], ox))]) /\
   run_columns flat3 L3 DictForm [("ab", (["B"], ox)); ("a", (["all"], ox))] =
-    Ok [(["a"; "b"], ("x", 1)); (["a"; "A"; "op/x"], ("x", 0)); (["a"; "B"; "op/x"], ("x", 1)); (["a"; "C"; "op/x"], ("x", 2))] /\
-  map fst (spec_columns flat3 DictForm [("ab", (["B"], ox)); ("a", (["all"], ox))]) =
-    [["ab"]; ["a"; "A"; "op/x"]; ["a"; "B"; "op/x"]; ["a"; "C"; "op/x"]] /\
-  mixed_labels_ok flat3 [("ab", (["B"], ox)); ("a", (["all"], ox))] = false.
-Proof. exact plain_key_split_refuted. Qed.
-Print Assumptions C06_plain_key_split_refuted.
+    Ok [(["ab"], ("x", 1)); (["a"; "A"; "op/x"], ("x", 0)); (["a"; "B"; "op/x"], ("x", 1)); (["a"; "C"; "op/x"], ("x", 2))].
+Proof. exact plain_key_regression. Qed.
+Print Assumptions C06_plain_key_regression.
 Theorem C06_overlap_refuted :
   run_columns flat3 L3 DictForm [("a", (["all"], ox)); ("b", (["all"], ox))] = Err KeyError /\
   List.length (spec_columns flat3 DictForm [("a", (["all"], ox)); ("b", (["all"], ox))]) = 6 /\
